@@ -212,7 +212,7 @@ def rule_r2(rep, program: Program):
             r.violate(PROP, f"{f.qualname}:metric:{norm(v)[:50]}", f"the metric is set to `{norm(v)[:60]}` instead of the inverse of {mat}({est})", node=ms, file=f.file)
         lp = idx["refresh"][1]
         it = norm(lp.iter)
-        asg = [s for s in lp.body if isinstance(s, ast.Assign)][0]
+        asg = [s for s in lp.body if isinstance(s, ast.Assign) and norm(s.targets[0]).endswith(".mom")][0]
         ok = it.startswith("zip(chain_states, rngs") and norm(asg.value).startswith("transition.system.sample_momentum(")
         r.inst({"class": cls, "refresh": norm(asg)})
         if not ok:
@@ -599,3 +599,7 @@ def run(rep, program: Program, tier: str) -> None:
     rule_r2(rep, program)
     rule_r3(rep, program)
     rule_r4(rep, program)
+    # the momenta are refreshed *under the new metric*: metric-dependent cache entries invalidated first (shared with C09-R10)
+    from . import c09
+
+    c09.rule_r10(rep, program, prop=PROP, rule="R5")
